@@ -71,7 +71,7 @@ CLS = {"Bd": Bd, "Hd": Hd, "Hd2": Hd2, "Cn": Cn}
 FIELDS = {"Bd": ["name", "size", "kind", "tag"], "Hd": ["name", "size", "kind", "tag"], "Hd2": ["name", "size", "kind", "tag"],
           "Cn": ["parent", "child", "w"]}
 POSITIONAL = {"Bd": 3, "Hd": 3, "Hd2": 3, "Cn": 3}      # how many leading fields may be given positionally
-VALS = {"name": ["a", "b", "c"], "size": [1, 2, 3], "kind": ["k", "m"], "w": [1, 2], "tag": ["t", "u", "a"]}
+VALS = {"name": ["a", "b", "c"], "size": [1, 2, 3], "kind": ["k", "m", None], "w": [1, 2], "tag": ["t", "u", "a"]}
 
 
 def plan(tier, seed):
@@ -84,7 +84,7 @@ def floors(tier):
             "cls:target:Cn": 300, "cls:positional": 300, "cls:value:const": 500, "cls:value:var": 100,
             "cls:value:term": 150, "cls:container:tuple": 100, "cls:container:gen": 100, "cls:container:single": 50,
             "cls:decl:let": 100, "cls:decl:from": 500, "cls:decl:an_term": 100, "cls:type_filter_needed": 800,
-            "cls:domain_without_instances_of_the_type": 150}
+            "cls:domain_without_instances_of_the_type": 150, "cls:requery_after_domain_list_changed": 100}
 
 
 def gen_case(rng):
@@ -123,6 +123,7 @@ def gen_case(rng):
         decl = "an_term"
     return {"bodies": bodies, "conns": conns, "target": target, "fields": fields, "positional": positional_prefix,
             "no_instance_in_domain": rng.random() < 0.08,
+            "requery_after_mutation": rng.choice([None, None, None, "append", "remove", "replace"]),
             "extras": extras, "container": rng.choice(["list", "list", "tuple", "gen", "single"]), "decl": decl}
 
 
@@ -168,6 +169,8 @@ def expected(case, bodies, dom):
 
 def _container(case, dom):
     c = case["container"]
+    if c == "shared_list":
+        return dom          # the caller's list object itself
     if c == "tuple":
         return tuple(dom)
     if c == "gen":
@@ -234,6 +237,13 @@ def run(case, bodies, dom, form):
     return list(q.evaluate())
 
 
+def run_shared(case, bodies, shared):
+    """predicate form over the very list object `shared` (no copy)"""
+    global _SHARED
+    _SHARED = shared
+    return run(case, bodies, shared, "predicate")
+
+
 def check_case(case, ctx):
     bodies, conns, dom = build_data(case)
     exp = expected(case, bodies, dom)
@@ -265,6 +275,29 @@ def check_case(case, ctx):
             ctx.fail("EXC", f"{form} form: {type(e).__name__}: {e}\n{traceback.format_exc()[-700:]}")
             return
     e = enc(exp)
+    if case.get("requery_after_mutation") and case["container"] == "list" and got["predicate"] == e and len(dom) >= 2:
+        # the same list object is used as a domain again after it was changed in place: the new query ranges over its
+        # current members
+        ctx.cls("cls:requery_after_domain_list_changed")
+        how = case["requery_after_mutation"]
+        shared = list(dom)
+        case2 = dict(case)
+        case2["container"] = "shared_list"
+        first = run_shared(case2, bodies, shared)
+        new_member = T(**({"name": "a"} if T is not Cn else {"w": 1}))
+        if how == "append":
+            shared.append(new_member)
+        elif how == "remove":
+            shared.pop(0)
+        else:
+            shared[0] = new_member
+        second = run_shared(case2, bodies, shared)
+        exp2 = expected(case, bodies, shared)
+        ids2 = {id(o): i for i, o in enumerate(shared)}
+        if [ids2.get(id(o), "?") for o in second] != [ids2[id(o)] for o in exp2]:
+            ctx.fail("REQUERY_AFTER_DOMAIN_CHANGE", {"change": how, "expected_positions": [ids2[id(o)] for o in exp2],
+                                                     "observed_positions": [ids2.get(id(o), "?") for o in second],
+                                                     "first_query_rows": len(first)})
     if got["predicate"] != e:
         ctx.fail("PREDICATE_FORM_VS_ORACLE", {"expected": e, "predicate_form": got["predicate"], "explicit_form": got["explicit"]})
     elif got["explicit"] != e:
